@@ -696,7 +696,32 @@ func ruleAMR(r *Run) {
 		}
 		return nil
 	}()
-	stateBody := func(k int) *ssa.BasicBlock {
+	// the select's "received, not closed" flag (case v, ok := <-ch)
+	var selOk ssa.Value
+	for _, ref := range *sel.Referrers() {
+		if ex, ok := ref.(*ssa.Extract); ok && ex.Index == 1 {
+			selOk = ex
+		}
+	}
+	// closedSide(b): b ends in a test of that flag; returns the successor taken when the channel
+	// was closed and the one taken when a value was received
+	closedSide := func(b *ssa.BasicBlock) (closed, open *ssa.BasicBlock) {
+		if selOk == nil || len(b.Instrs) == 0 {
+			return nil, nil
+		}
+		iff, ok := b.Instrs[len(b.Instrs)-1].(*ssa.If)
+		if !ok {
+			return nil, nil
+		}
+		if iff.Cond == selOk {
+			return b.Succs[1], b.Succs[0]
+		}
+		if n, ok := iff.Cond.(*ssa.UnOp); ok && n.Op == token.NOT && n.X == selOk {
+			return b.Succs[0], b.Succs[1]
+		}
+		return nil, nil
+	}
+	stateBody0 := func(k int) *ssa.BasicBlock {
 		for _, ins := range allInstrs(R) {
 			iff, ok := ins.(*ssa.If)
 			if !ok {
@@ -709,6 +734,17 @@ func ruleAMR(r *Run) {
 			}
 		}
 		return nil
+	}
+	// a case that starts with `if !ok { … }` continues, for a received value, on the ok side;
+	// the closed side is judged by the reducer-exit obligation below
+	stateBody := func(k int) *ssa.BasicBlock {
+		b := stateBody0(k)
+		if b != nil {
+			if cl, op := closedSide(b); cl != nil && len(op.Preds) == 1 {
+				return op
+			}
+		}
+		return b
 	}
 	recvVal := func(k int) ssa.Value {
 		// the k-th receive state's value is extract #(2+number of earlier recv states)
@@ -731,6 +767,7 @@ func ruleAMR(r *Run) {
 	selBlock := sel.Block()
 	doneSeen := map[ssa.Instruction]bool{}
 	var cDone *ssa.MakeChan
+	var doneBody *ssa.BasicBlock
 	sawRes, sawErr := false, false
 	for k, st := range sel.States {
 		if st.Dir != types.RecvOnly {
@@ -841,6 +878,7 @@ func ruleAMR(r *Run) {
 				continue
 			}
 			cDone = mc
+			doneBody = body
 			okRet := true
 			seenB := map[*ssa.BasicBlock]bool{}
 			var walk func(b *ssa.BasicBlock)
@@ -868,6 +906,30 @@ func ruleAMR(r *Run) {
 			} else {
 				a.ok("A7", "reducer-exit", sel, "the reducer returns when it receives on C_done")
 			}
+		}
+	}
+	// A7a: the reducer leaves only through the done case. Any other return (out of a result or
+	// error case, through a loop condition) lets it go while items are outstanding: the remaining
+	// workers block on their send for ever and Wait never returns. A return taken only when a
+	// received channel was closed is harmless: the helper closes its channels after the join and
+	// the handshake (A6, A7, A9).
+	if doneBody != nil {
+		for _, ret := range returnsOf(R) {
+			rb := ret.Block()
+			if rb == doneBody || (len(doneBody.Preds) == 1 && doneBody.Dominates(rb)) {
+				continue
+			}
+			viaClosed := false
+			for _, b := range R.Blocks {
+				if cl, _ := closedSide(b); cl != nil && len(cl.Preds) == 1 && (cl == rb || cl.Dominates(rb)) {
+					viaClosed = true
+				}
+			}
+			if viaClosed {
+				a.ok("A7", "reducer-exit-on-closed", ret, "return taken only when a helper channel was closed, which happens after the join and the handshake")
+				continue
+			}
+			a.bad("A7", "reducer-exit-early", ret, "the reducer goroutine can return on a path that is not the done case (out of a result/error case or through a loop condition): with items still outstanding their workers block on the send for ever and wg.Wait() never returns")
 		}
 	}
 	if !sawRes || !sawErr {
